@@ -3,6 +3,7 @@ import TracklibVerif.Lemmas.ViterbiLik
 import TracklibVerif.Lemmas.ViterbiZero
 import TracklibVerif.Lemmas.Hmm
 import TracklibVerif.Lemmas.HmmPos
+import TracklibVerif.Lemmas.ViterbiBound
 import Mathlib.Algebra.Order.Monoid.Defs
 import Mathlib.Algebra.Order.Group.Nat
 /-! # C09 — hidden-Markov decoding returns a maximum-likelihood state sequence
@@ -120,6 +121,35 @@ theorem likelihood_form (n : Nat → Nat) (p : Nat → Nat → ℝ) (q : Nat →
     exact (cost_le_iff_lik_ge n p q eps big N hp hq (seqOf r) σ hv hσ).mp ho
   · have hc := (decoded_cost (likTables n p q eps big false) N hpos hbig r h).1 N (Nat.le_refl _)
     rw [hc, cost_eq_neg_log n p q eps big N hp hq (seqOf r) hv N (Nat.le_refl _)]
+
+/-- **`paths_below_of_bounded`** (the sentinel hypothesis made checkable). If no entry of the cost tables exceeds
+`B ≥ 0` and `2N·B` is below the sentinel, then `PathsBelow` holds: the `1e300` start value of `best_val` is never the
+minimum. (Over an ordered additive commutative monoid; `n • B` is `B + … + B`.) -/
+theorem paths_below_of_bounded [AddCommMonoid α] [IsOrderedAddMonoid α] (t : Tables α) (hadd : t.add = (· + ·))
+    (B : α) (hB : 0 ≤ B) (N : Nat)
+    (hobs : ∀ k l, k ≤ N → l < t.n k → t.obs k l ≤ B)
+    (htr : ∀ k m l, k < N → m < t.n k → l < t.n (k+1) → t.trans k m l ≤ B)
+    (hbig : (2 * N) • B < t.big) : PathsBelow t N :=
+  pathsBelow_of_bounded t hadd B hB N hobs htr hbig
+
+/-- **T4' `likelihood_form_nonneg`** (ℝ; T4 without a hypothesis on running costs). For NON-NEGATIVE likelihoods — zeros
+included, values above 1 included (unnormalised) — and a guard `0 < eps ≤ 1`, every cost is at most `-log eps`
+(690.78 for the code's `1e-300`), so it is enough that `2N·(-log eps)` is below the sentinel (for the code's constants:
+any track of fewer than `10^296` epochs, see the example below): the decoded sequence is a candidate sequence of maximal
+guarded joint likelihood and the cost recorded at the last epoch is `-log` of that maximum. -/
+theorem likelihood_form_nonneg (n : Nat → Nat) (p : Nat → Nat → ℝ) (q : Nat → Nat → Nat → ℝ) (eps big : ℝ) (N : Nat)
+    (hpos : ∀ k, k ≤ N → 0 < n k) (he : 0 < eps) (he1 : eps ≤ 1)
+    (hp : ∀ k l, k ≤ N → l < n k → 0 ≤ p k l)
+    (hq : ∀ k m l, k < N → m < n k → l < n (k+1) → 0 ≤ q k m l)
+    (hbig : (2 * N : ℝ) * (- Real.log eps) < big)
+    (r : List (Nat × ℝ)) (h : decode (likTables n p q eps big false) (N+1) = .ok r) :
+    (∀ k, k ≤ N → seqOf r k < n k) ∧
+    (∀ σ : Nat → Nat, (∀ k, k ≤ N → σ k < n k) → lik p q eps σ N ≤ lik p q eps (seqOf r) N) ∧
+    costAt r N = some (- Real.log (lik p q eps (seqOf r) N)) :=
+  likelihood_form n p q eps big N hpos
+    (fun k l hk hl => by have := hp k l hk hl; linarith)
+    (fun k m l hk hm hl => by have := hq k m l hk hm hl; linarith)
+    (likTables_pathsBelow n p q eps big N he he1 hp hq hbig) r h
 
 /-- **T4b `logs_supplied_same`.** A user who passes the logarithms `log (v + eps)` of the same likelihoods
 and declares the model with `log=True` makes `estimate` work on exactly the same cost tables: same decoded
@@ -332,13 +362,35 @@ theorem estimate_then_xyz [LinearOrder β] [Add β] [Neg β] (nm : Num β) (h : 
 /-- **T10 `any_sequence_of_candidates`** (what `S` returns). `estimate` uses `S(track, k)` through `len` and `[i]` only.
 When every epoch's return value has a length — list, tuple, numpy array, `range`, `deque`, a user class — the call is
 exactly `estimate` on the items in index order (`ObjS.toObj`): same flag, same track, same exception if any. So T5–T9
-hold with "candidates of epoch `k`" = the items of whatever `S` returned. -/
+hold with "candidates of epoch `k`" = the items of whatever `S` returned. (`NoDomainError`: no value that is converted
+lies outside the domain of `math.log` — true when the flag is set and for likelihoods `v` with `v + 1e-300 > 0`; T12
+is the other case.) -/
 theorem any_sequence_of_candidates [LinearOrder β] [Add β] [Neg β] (nm : Num β) (h : ObjS β) (tr : Trk β)
-    (obs : List String) (log : Bool) (mode : Nat) (hs : ∀ k, k < tr.size → (h.S tr k).isSized = true) :
+    (obs : List String) (log : Bool) (mode : Nat) (hs : ∀ k, k < tr.size → (h.S tr k).isSized = true)
+    (hd : NoDomainError nm h tr obs log mode) :
     (estimateS nm h tr obs log mode).1.log = (estimate nm h.toObj tr obs log mode).1.log ∧
     (estimateS nm h tr obs log mode).2 = (estimate nm h.toObj tr obs log mode).2 := by
-  rw [estimateS_sized nm h tr obs log mode hs]
+  rw [estimateS_sized nm h tr obs log mode hs hd]
   exact ⟨rfl, rfl⟩
+
+/-- the flag is set (constructor, `setLog`, or the argument of this call): nothing is converted, `math.log` is not called -/
+theorem no_domain_error_of_log [Add β] (nm : Num β) (h : ObjS β) (tr : Trk β) (obs : List String) (log : Bool) (mode : Nat)
+    (hl : (h.log || log) = true) : NoDomainError nm h tr obs log mode := by
+  intro OBS _
+  simp only [domainError, ObjS.toObj, hl]
+  rfl
+
+/-- **T12 `negative_likelihood_raises`.** The flag is not set and, among the values `P` / `Q` return for the candidates of
+the track (every candidate of every epoch, every pair of candidates of consecutive epochs), one is outside the domain of
+`math.log` once the guard is added (`v + 1e-300 ≤ 0`: a negative "likelihood"): `ValueError` — raised in the first
+column or the forward pass, so NOTHING of the track is written; the flag is or-ed (i.e. stays unset). -/
+theorem negative_likelihood_raises [LinearOrder β] [Add β] [Neg β] (nm : Num β) (h : ObjS β) (tr : Trk β)
+    (obs : List String) (log : Bool) (mode : Nat) (hs : ∀ k, k < tr.size → (h.S tr k).isSized = true)
+    (hne : tr.size ≠ 0) (OBS : List (List (ObsItem β)))
+    (hobs : (List.range tr.size).mapM (fun k => getObsK nm tr obs k mode) = .ok OBS)
+    (hd : domainError nm { h.toObj with log := h.log || log } tr ((List.range tr.size).map (h.toObj.S tr)) OBS = true) :
+    estimateS nm h tr obs log mode = ({ h with log := h.log || log }, tr, some .value) :=
+  estimateS_domain nm h tr obs log mode hs hne OBS hobs hd
 
 /-- **T11 `candidates_without_length`.** When `S` returns at some epoch something without a length (a generator, `None`,
 a bare state object): `TypeError`; the flag has been or-ed into the object; NOTHING of the track is written (no feature
@@ -372,6 +424,21 @@ example : PathsBelow exT 2 := by
   · simp only [exT, cost]; split <;> split <;> simp
   · simp only [exT, cost]; repeat' split
     all_goals simp
+set_option exponentiation.threshold 400 in
+/-- the bound of T4' for the code's constants (`eps = 1e-300`, sentinel `1e300`) and a track of a million epochs:
+`-log eps = 300 log 10 ≤ 2700` -/
+example : (2 * (10 ^ 6 : ℕ) : ℝ) * (- Real.log (1 / 10 ^ 300)) < 10 ^ 300 := by
+  have h10 : Real.log 10 ≤ 9 := by
+    have := Real.log_le_sub_one_of_pos (show (0 : ℝ) < 10 by norm_num)
+    linarith
+  have e : Real.log (1 / 10 ^ 300) = -(300 * Real.log 10) := by
+    rw [one_div, Real.log_inv, Real.log_pow]; push_cast; ring
+  rw [e]
+  have : (2 * (10 ^ 6 : ℕ) : ℝ) * (- -(300 * Real.log 10)) ≤ 2 * 10 ^ 6 * (300 * 9) := by
+    push_cast
+    nlinarith
+  refine lt_of_le_of_lt this ?_
+  norm_num
 /-- the hypotheses of T4 are satisfiable: two epochs of two states, all likelihoods 1, no guard -/
 example : PathsBelow (likTables (fun _ => 2) (fun _ _ => 1) (fun _ _ _ => 1) 0 1000 false) 1 := by
   intro σ _ k hk
@@ -432,6 +499,16 @@ private def hS2 : ObjS Int := { S := fun _ k => if k = 1 then .unsized else .siz
 example : let a := estimateS nmZ hS1 tr0 ["ya"] false 0
           let b := estimate nmZ hA tr0 ["ya"] false 0
           (a.2.1.cols, a.2.1.pos, a.2.2) = (b.2.1.cols, b.2.1.pos, b.2.2) ∧ a.2.1.get? "hmm_inference" 1 = some (.st 1) := by
+  decide +kernel
+/-- `math.log` defined on the positive numbers only; model A's `P` returns `-1` for the wrong state: declared as
+likelihoods (flag unset) the call raises ValueError and writes nothing; with the flag given to the call it decodes -/
+private def nmD : Num Int := { nmZ with logDom := fun x => decide (0 < x) }
+private def hS3 : ObjS Int := { hS1 with log := false, Q := fun _ _ _ _ => 1 }
+example : let a := estimateS nmD hS3 tr0 ["ya"] false 0
+          (a.2.1.cols, a.2.1.pos, a.2.2, a.1.log) = (tr0.cols, tr0.pos, some .value, false) := by
+  decide +kernel
+example : let a := estimateS nmD hS3 tr0 ["ya"] true 0
+          (a.2.2, a.1.log, a.2.1.get? "hmm_inference" 1) = (none, true, some (.st 1)) := by
   decide +kernel
 example : let a := estimateS nmZ hS2 tr0 ["ya"] true 3
           (a.2.1.cols, a.2.1.pos, a.2.2, a.1.log) = (tr0.cols, tr0.pos, some .type, true) := by
